@@ -219,7 +219,10 @@ def attr_str(f):
         v = {"r": rng, "a": acc or None, "s": stride}[k]
         if v:
             parts.append(v)
-    body = ", ".join(parts)
+    if syn % 13 == 7 and len(parts) >= 2:
+        body = parts[0] + ",, " + ", ".join(parts[1:])  # an empty top-level argument is accepted and means nothing
+    else:
+        body = ", ".join(parts)
     if syn % 7 == 3:
         body += ","
     return "#[%s(%s)]" % (head, body)
